@@ -4,11 +4,16 @@
    [current] = the bracket table regenerated from /repo's working tree (Gen/GlobalSites.v);
    [pinned]  = the table of the tree as pinned, before the C06 fix: commits.
 
+   Calls nest: a body may call back into the public API (fetcher, replacer, log handler) to any depth,
+   on the same or another parser object; [fuel] bounds the size of one top-level activation tree
+   (fuel 0 runs nothing at all).  Callbacks that change the caller's settings are excluded (TNestSet).
+
    Full statements:
-     history_independent    : forall hist c, result current (run current hist G0) c
-                                             = result current (run current (setters hist) G0) c
+     history_independent    : forall fuel hist c, result current fuel (run current fuel hist G0) c
+                                             = result current fuel (run current fuel (setters hist) G0) c
        (setters hist = the caller's own settings in hist; for a history without any:  = result (run [] G0) c)
-     caller_settings_stable : forall hist, observable (run current hist G0) = last_set_by_caller hist
+     caller_settings_stable : forall fuel hist, fuel <> 0 ->
+                                observable (run current fuel hist G0) = last_set_by_caller hist
    The first is refuted in every tree by the never-reset selector memo of the experimental
    indentSpecificities preference (history_independent_refuted) and proved for all histories in which
    the caller does not switch that preference on (history_independent_partial); the second is proved in full. *)
@@ -19,60 +24,70 @@ Proof. vm_compute. reflexivity. Qed.
 Print Assumptions current_tree_well_bracketed.
 
 Theorem history_independent_partial :
-  forall hist c, no_indent hist = true ->
-    result current (run current hist G0) c = result current (run current (setters hist) G0) c.
+  forall fuel hist c, no_indent hist = true ->
+    result current fuel (run current fuel hist G0) c = result current fuel (run current fuel (setters hist) G0) c.
 Proof. exact (history_independent_gen current current_tree_well_bracketed). Qed.
 Print Assumptions history_independent_partial.
 
 Theorem history_independent_partial_nosetters :
-  forall hist c, setters hist = [] -> no_indent hist = true ->
-    result current (run current hist G0) c = result current (run current [] G0) c.
+  forall fuel hist c, setters hist = [] -> no_indent hist = true ->
+    result current fuel (run current fuel hist G0) c = result current fuel (run current fuel [] G0) c.
 Proof. exact (history_independent_nosetters current current_tree_well_bracketed). Qed.
 Print Assumptions history_independent_partial_nosetters.
 
 Theorem history_independent_refuted :
-  exists hist c, result current (run current hist G0) c <> result current (run current (setters hist) G0) c.
-Proof. exists memo_hist, memo_call. exact (memo_dependent current). Qed.
+  exists fuel hist c, result current fuel (run current fuel hist G0) c <> result current fuel (run current fuel (setters hist) G0) c.
+Proof. exists 5%nat, memo_hist, memo_call. exact (memo_dependent current). Qed.
 Print Assumptions history_independent_refuted.
 
 Theorem caller_settings_stable :
-  forall hist, observable (run current hist G0) = last_set_by_caller hist.
+  forall fuel hist, fuel <> O -> observable (run current fuel hist G0) = last_set_by_caller hist.
 Proof. exact (caller_settings_stable_gen current current_tree_well_bracketed). Qed.
 Print Assumptions caller_settings_stable.
 
 (* the tree as pinned *)
 Theorem history_independent_pinned_refuted_stash :
   exists hist c, no_indent hist = true /\
-    result pinned (run pinned hist G0) c <> result pinned (run pinned (setters hist) G0) c.
+    result pinned 10 (run pinned 10 hist G0) c <> result pinned 10 (run pinned 10 (setters hist) G0) c.
 Proof. exists stash_hist, stash_call. split; [reflexivity | exact pinned_stash]. Qed.
 Print Assumptions history_independent_pinned_refuted_stash.
 
 Theorem history_independent_pinned_refuted_flag :
   exists hist c, no_indent hist = true /\
-    result pinned (run pinned hist G0) c <> result pinned (run pinned (setters hist) G0) c.
+    result pinned 10 (run pinned 10 hist G0) c <> result pinned 10 (run pinned 10 (setters hist) G0) c.
 Proof. exists flag_hist, flag_call. split; [reflexivity | exact pinned_flag]. Qed.
 Print Assumptions history_independent_pinned_refuted_flag.
 
 Theorem caller_settings_stable_pinned_refuted_flag :
-  exists hist, observable (run pinned hist G0) <> last_set_by_caller hist.
+  exists hist, observable (run pinned 10 hist G0) <> last_set_by_caller hist.
 Proof. exists flag_hist. exact pinned_flag_settings. Qed.
 Print Assumptions caller_settings_stable_pinned_refuted_flag.
 
 Theorem caller_settings_stable_pinned_refuted_construction :
-  exists hist, observable (run pinned hist G0) <> last_set_by_caller hist.
+  exists hist, observable (run pinned 10 hist G0) <> last_set_by_caller hist.
 Proof. exists captured_hist. exact pinned_captured_settings. Qed.
 Print Assumptions caller_settings_stable_pinned_refuted_construction.
 
 Theorem caller_settings_stable_pinned_refuted_csscombine :
-  exists hist, observable (run pinned hist G0) <> last_set_by_caller hist.
+  exists hist, observable (run pinned 10 hist G0) <> last_set_by_caller hist.
 Proof. exists combine_hist. exact pinned_combine_settings. Qed.
 Print Assumptions caller_settings_stable_pinned_refuted_csscombine.
 
+(* a tree whose brackets are all complete but which keeps the flag to write back on the parser object
+   instead of in the frame of the running parse: wrong under re-entrant use of one parser object *)
+Theorem caller_settings_stable_onself_refuted_reentrant :
+  exists hist, observable (run onself 10 hist G0) <> last_set_by_caller hist.
+Proof. exists reentrant_hist. exact onself_reentrant_settings. Qed.
+Print Assumptions caller_settings_stable_onself_refuted_reentrant.
+
 (* non-vacuity: a history that leaks a token, raises inside a parse and inside csscombine, changes
-   settings -- followed by a call that reads every cell *)
+   settings, parses re-entrantly on one parser object to depth 2 -- followed by a call that reads every
+   cell, also from inside a callback *)
 Example history_independent_nonvacuous :
   no_indent busy_hist = true /\
-  result current (run current busy_hist G0) busy_call =
-    [([ONone; OTok None; OTok None; OFlag false; OSer 3 4 0 0 None; ODx true], TRet)] /\
-  result current (run current busy_hist G0) busy_call = result current (run current (setters busy_hist) G0) busy_call.
+  result current 20 (run current 20 busy_hist G0) busy_call =
+    [([ONone; OTok None; OTok None; OFlag false; OSer 3 4 0 0 None; ODx true;
+       ONest [([OFlag false; ONone; OTok None], TRet)]; OFlag false], TRet)] /\
+  result current 20 (run current 20 busy_hist G0) busy_call = result current 20 (run current 20 (setters busy_hist) G0) busy_call /\
+  observable (run current 20 busy_hist G0) = last_set_by_caller busy_hist.
 Proof. vm_compute. repeat split. Qed.
